@@ -9,7 +9,6 @@ import (
 
 	"github.com/Vedant9500/WTF/internal/constants"
 	"github.com/Vedant9500/WTF/internal/nlp"
-	"github.com/Vedant9500/WTF/internal/utils"
 )
 
 // SearchResult represents a command with its relevance score
@@ -49,7 +48,7 @@ func (db *Database) SearchWithOptions(query string, options SearchOptions) []Sea
 	}
 
 	queryWords := strings.Fields(strings.ToLower(query))
-	results := make([]SearchResult, 0, utils.Min(len(db.Commands), options.Limit*constants.ResultsBufferMultiplier))
+	results := make([]SearchResult, 0, resultCapacity(len(db.Commands), options.Limit))
 
 	currentPlatform := getCurrentPlatform()
 
@@ -73,7 +72,7 @@ func (db *Database) SearchWithPipelineOptions(query string, options SearchOption
 	}
 
 	queryWords := strings.Fields(strings.ToLower(query))
-	results := make([]SearchResult, 0, utils.Min(len(db.Commands), options.Limit*constants.ResultsBufferMultiplier))
+	results := make([]SearchResult, 0, resultCapacity(len(db.Commands), options.Limit))
 
 	for i := range db.Commands {
 		cmd := &db.Commands[i]
@@ -99,6 +98,15 @@ func (db *Database) SearchWithPipelineOptions(query string, options SearchOption
 	}
 
 	return db.sortAndLimitResults(results, options.Limit)
+}
+
+// resultCapacity returns min(n, limit*ResultsBufferMultiplier) without overflowing for huge
+// limits (a negative capacity would make the allocation panic).
+func resultCapacity(n, limit int) int {
+	if limit <= 0 || limit > n/constants.ResultsBufferMultiplier {
+		return n
+	}
+	return limit * constants.ResultsBufferMultiplier
 }
 
 // sortAndLimitResults sorts results by score and applies limit
